@@ -58,6 +58,17 @@ var OutsideAtoms = []OutsideAtom{
 	{ID: "gofunclit_ok", Kind: "stmt", Code: "gw := new(sync.WaitGroup)\n\tgw.Add(1)\n\txc := x\n\tgo func() {\n\t\t*q = *q + xc\n\t\tgw.Done()\n\t}()\n\tx = x + 100\n\tgw.Wait()", Site: "supported spawn form", NoLoop: true},
 	{ID: "gonamed", Kind: "stmt", Code: "go sideEffect0()", Site: "spawnExpr: only function literal spawns"},
 	{ID: "labeled", Kind: "stmt", Code: "outer:\n\tfor {\n\t\tx++\n\t\tif x > 3 {\n\t\t\tbreak outer\n\t\t}\n\t}", Site: "stmtInBlock default (labeled)"},
+	{ID: "labeled_continue_outer", Kind: "stmt", Code: "outer:\n\tfor i := uint64(0); i < 3; i++ {\n\t\tfor j := uint64(0); j < 3; j++ {\n\t\t\tif j == i {\n\t\t\t\tcontinue outer\n\t\t\t}\n\t\t\tx += 1\n\t\t}\n\t\tx += 100\n\t}", Site: "labeled loop; continue naming an outer loop", NoLoop: true},
+	{ID: "labeled_break_outer", Kind: "stmt", Code: "outer:\n\tfor i := uint64(0); i < 3; i++ {\n\t\tfor j := uint64(0); j < 3; j++ {\n\t\t\tif i+j == 3 {\n\t\t\t\tbreak outer\n\t\t\t}\n\t\t\tx += 1\n\t\t}\n\t\tx += 100\n\t}", Site: "labeled loop; break naming an outer loop", NoLoop: true},
+	{ID: "labeled_range_continue_outer", Kind: "stmt", Code: "rows:\n\tfor _, v := range s {\n\t\tfor _, u := range s {\n\t\t\tif u == 5 {\n\t\t\t\tcontinue rows\n\t\t\t}\n\t\t\tx += u + v\n\t\t}\n\t\tx += 1000\n\t}", Site: "labeled range loop; continue naming the outer loop", NoLoop: true},
+	{ID: "labeled_own_loop_only", Kind: "stmt", Code: "own:\n\tfor i := uint64(0); i < 4; i++ {\n\t\tif i == 2 {\n\t\t\tcontinue own\n\t\t}\n\t\tx += i\n\t}", Site: "labeled loop; branch naming its own loop", NoLoop: true},
+	{ID: "continue_nested_two_levels", Kind: "stmt", Code: "for i := uint64(0); i < 5; i++ {\n\t\tif i > 1 {\n\t\t\tif i == 3 {\n\t\t\t\tcontinue\n\t\t\t}\n\t\t\tx += 10\n\t\t}\n\t\tx += 100\n\t}", Site: "continue inside an if nested in a mid-block if", NoLoop: true},
+	{ID: "continue_in_else_mid_block", Kind: "stmt", Code: "for i := uint64(0); i < 4; i++ {\n\t\tif i == 0 {\n\t\t\tx += 1\n\t\t} else {\n\t\t\tcontinue\n\t\t}\n\t\tx += 100\n\t}", Site: "continue in the else branch of a mid-block if", NoLoop: true},
+	{ID: "continue_nested_in_range", Kind: "stmt", Code: "for _, v := range s {\n\t\tif v > 1 {\n\t\t\tif v == 5 {\n\t\t\t\tcontinue\n\t\t\t}\n\t\t\tx += v\n\t\t}\n\t\tx += 1\n\t}", Site: "continue nested two levels deep in a range body", NoLoop: true},
+	{ID: "break_nested_two_levels", Kind: "stmt", Code: "for i := uint64(0); i < 5; i++ {\n\t\tif i > 1 {\n\t\t\tif i == 3 {\n\t\t\t\tbreak\n\t\t\t}\n\t\t\tx += 10\n\t\t}\n\t\tx += 100\n\t}", Site: "break inside an if nested in a mid-block if", NoLoop: true},
+	{ID: "break_in_else_mid_block", Kind: "stmt", Code: "for i := uint64(0); i < 4; i++ {\n\t\tif i < 2 {\n\t\t\tx += 1\n\t\t} else {\n\t\t\tbreak\n\t\t}\n\t\tx += 100\n\t}", Site: "break in the else branch of a mid-block if", NoLoop: true},
+	{ID: "return_nested_two_levels_then_code", Kind: "stmt", Code: "if x > 2 {\n\t\tif x > 6 {\n\t\t\treturn x * 2\n\t\t}\n\t}\n\tx += 2", Site: "else-less if whose last statement is an else-less if ending in return, followed by code", NoLoop: true},
+	{ID: "return_nested_in_loop_body", Kind: "stmt", Code: "for i := uint64(0); i < 4; i++ {\n\t\tif i > 0 {\n\t\t\tif x > 200 {\n\t\t\t\treturn x\n\t\t\t}\n\t\t}\n\t\tx += 100\n\t}", Site: "return nested two levels deep in a loop body", NoLoop: true},
 	{ID: "gotostmt", Kind: "stmt", Code: "if x > 100 {\n\t\tgoto done\n\t}\n\tx += 5\ndone:\n\tx += 1", Site: "branchStmt / labeled", NoLoop: true},
 	{ID: "arrayvar", Kind: "stmt", Code: "var arr [3]uint64\n\tarr[1] = x\n\tx = arr[1] + arr[0] + uint64(len(arr))", Site: "arrays"},
 	{ID: "caparray", Kind: "stmt", Code: "var arr2 [4]uint64\n\tx += uint64(cap(arr2)) + uint64(len(arr2))", Site: "capExpr / lenExpr of an array"},
@@ -134,6 +145,10 @@ var OutsideAtoms = []OutsideAtom{
 	{ID: "multifield", Kind: "decl", Code: "type mf struct {\n\ta, b uint64\n}\n\nfunc multifield_fn(a uint64) uint64 {\n\tv := &mf{a: a, b: 2}\n\treturn v.a*10 + v.b\n}", Site: "structFields: multiple fields for same type"},
 	{ID: "namedmethod", Kind: "decl", Code: "type nmId uint64\n\nfunc (i nmId) twice() nmId {\n\treturn i * 2\n}\n\nfunc namedmethod_fn(a uint64) uint64 {\n\tvar i nmId = nmId(a)\n\treturn uint64(i.twice())\n}", Site: "method on a named non-struct type"},
 	{ID: "iotaconst", Kind: "decl", Code: "const (\n\tic0 uint64 = iota + 1\n\tic1\n\tic2\n)\n\nfunc iotaconst_fn(a uint64) uint64 {\n\treturn a + ic0*100 + ic1*10 + ic2\n}", Site: "constSpec: const with no value"},
+	{ID: "constrepeat_typed", Kind: "decl", Code: "const (\n\tcrA uint64 = 1 << 3\n\tcrB\n)\n\nfunc constrepeat_typed_fn(a uint64) uint64 {\n\treturn a + crA*100 + crB\n}", Site: "constSpec: const with no value (implicit repetition of a typed spec)"},
+	{ID: "constrepeat_untyped", Kind: "decl", Code: "const (\n\tcuA = 5\n\tcuB\n)\n\nfunc constrepeat_untyped_fn(a uint64) uint64 {\n\treturn a + cuA*100 + cuB\n}", Site: "constSpec: const with no value (implicit repetition)"},
+	{ID: "constrepeat_three", Kind: "decl", Code: "const (\n\tctA uint32 = 7\n\tctB\n\tctC uint32 = 9\n\tctD\n)\n\nfunc constrepeat_three_fn(a uint64) uint64 {\n\treturn a + uint64(ctA) + uint64(ctB)*10 + uint64(ctC)*100 + uint64(ctD)*1000\n}", Site: "constSpec: const with no value"},
+	{ID: "globalnovalue", Kind: "decl", Code: "var gnvA uint64\n\nvar gnvB bool\n\nfunc globalnovalue_fn(a uint64) uint64 {\n\tif gnvB {\n\t\treturn 1\n\t}\n\treturn a + gnvA\n}", Site: "globalVarDecl without a value"},
 	{ID: "multiconst", Kind: "decl", Code: "const mcA, mcB uint64 = 1, 2\n\nfunc multiconst_fn(a uint64) uint64 {\n\treturn a + mcA*10 + mcB\n}", Site: "constDecl: multi-name spec"},
 	{ID: "multiglobal", Kind: "decl", Code: "var mgA, mgB uint64 = 3, 4\n\nfunc multiglobal_fn(a uint64) uint64 {\n\treturn a + mgA*10 + mgB\n}", Site: "globalVarDecl: multi-name spec"},
 	{ID: "globalassign", Kind: "decl", Code: "var gaCounter uint64 = 1\n\nfunc globalassign_fn(a uint64) uint64 {\n\tgaCounter = gaCounter + a\n\treturn gaCounter\n}", Site: "assignFromTo: global is not assignable"},
